@@ -9,7 +9,7 @@
 From Coq Require Import String Ascii List Bool Arith ZArith.
 Import ListNotations.
 Require Import PyBase PyStr Lex LexCoverFacts Symbols Split SplitFacts SplitChunks SplitChunksFacts SplitBalanceFacts Merge ParseEq ParseEqFacts ParseModel ParseModelFacts ParseModelExamples
-               ParseContribFacts ParseContribExamples FormatDecideFacts SplitInsertFacts ParseOracleFacts.
+               ParseContribFacts ParseContribExamples FormatDecideFacts SplitInsertFacts ParseOracleFacts SplitIdemFacts ParseEqYieldFacts MergeUniqueFacts.
 Open Scope string_scope.
 
 Section C13.
@@ -112,6 +112,11 @@ Section C13.
     (forall st syms c, In st (fst (split_M s)) -> parse_equation_M st = POk syms -> In c (codes_of syms) -> chk c = chk' c) ->
     parse_model_M chk cs s = parse_model_M chk' cs s.
   Proof. exact (oracle_sees_only_generated_codes chk chk' cs s). Qed.
+
+  (* the symbol table has one entry per name: the named symbols of an accepted model carry pairwise distinct names
+     (verbatim blocks are unnamed), so the equations counted by n_emitted belong to distinct variables *)
+  Theorem C13_names_unique cs s out : parse_model_M chk cs s = POk out -> NoDup (names_of out).
+  Proof. exact (parse_model_names_unique chk cs s out). Qed.
 End C13.
 Print Assumptions C13_every_exception_classified.
 Print Assumptions C13_own_errors_only.
@@ -125,6 +130,7 @@ Print Assumptions C13_every_statement_contributes.
 Print Assumptions C13_model_decides_unless_stray_brace.
 Print Assumptions C13_blank_line_between_statements_irrelevant.
 Print Assumptions C13_oracle_sees_only_generated_codes.
+Print Assumptions C13_names_unique.
 
 (* one statement, taken alone: a verbatim statement or a guarded equation yields exactly one emitting symbol *)
 Theorem C13_statement_emits_one st syms :
@@ -203,6 +209,17 @@ Print Assumptions C13_lexer_covers_input.
 Theorem C13_lexer_spans_disjoint_inside s : spans_ok 0 (String.length s) (toks s).
 Proof. exact (toks_spans_ok s). Qed.
 Print Assumptions C13_lexer_spans_disjoint_inside.
+
+(* splitting is idempotent on what it yields: for EVERY script, each statement split again is exactly itself, nothing is
+   raised.  parse_equation re-splits its argument and raises ParserError unless it finds exactly one statement: inside
+   parse_model that check (and the blank test before it) can never fire — parse_equation reduces to its body. *)
+Theorem C13_split_idempotent s y : In y (fst (split_M s)) -> split_M y = ([y], None).
+Proof. exact (split_idempotent s y). Qed.
+Print Assumptions C13_split_idempotent.
+Theorem C13_single_statement_check_never_fires s y :
+  In y (fst (split_M s)) -> parse_equation_M y = parse_equation_body y.
+Proof. exact (parse_equation_M_yielded s y). Qed.
+Print Assumptions C13_single_statement_check_never_fires.
 
 (* the hypotheses of C13_no_statement_discarded hold on an ordinary script (comment, blank line, fenced block,
    bracketed continuation) *)
